@@ -47,6 +47,8 @@ POOLS = {
                '_n0', '_o'],
     'nonascii': ['café', 'naïve', 'über', 'señor', 'αβ', '日本', 'grüß',
                  'ångström', 'Жук', 'pâté', 'été', 'øre', 'ça', 'łódź'],
+    # AFM WORD tokens equal up to letter case
+    'afmcase': ['Abc', 'ABC', 'AbC', 'ABc', 'Xyz', 'XYZ', 'XyZ', 'XYz', 'Pq', 'PQ', 'Mno', 'MNO', 'MnO', 'MNo'],
     'afmword': ['Alpha', 'Beta2', 'Gamma', 'DeltaX', 'Eps', 'Zeta9', 'Eta', 'Theta1', 'Iota',
                 'Kappa', 'Lambda', 'Mu3', 'Nu', 'Xi'],
     'attrlow': ['price', 'cost', 'w', 'mem', 'speed', 'size', 'level', 'rank', 'qty', 'kind',
@@ -85,12 +87,12 @@ class Naming:
         pool = POOLS[cls]
         for j in range(len(pool)):
             cand = pool[(self._offs[cls] + idx + j) % len(pool)]
-            if cand not in self._used and (cls == 'casepair' or cand.lower() not in {u.lower() for u in self._used}):
+            if cand not in self._used and (cls in ('casepair', 'afmcase') or cand.lower() not in {u.lower() for u in self._used}):
                 return cand
         n = 0
         while True:  # pool exhausted: derive a fresh one
             cand = pool[idx % len(pool)] + ('_%d' % n if cls in ('plain', 'afmword') else ' %d' % n)
-            if cls == 'afmword':
+            if cls in ('afmword', 'afmcase'):
                 cand = pool[idx % len(pool)] + 'X%d' % n
             if cand not in self._used:
                 return cand
